@@ -51,7 +51,10 @@ pub fn chunked_body_flow_for(which: usize) -> Result<F<RecvBody>, String> {
             return Err("interim head not accepted".into());
         }
     }
-    let head = format!("HTTP/1.1 {} X\r\n{}Transfer-Encoding: {}\r\n\r\n", status, extra, te);
+    // (one head in four also carries a Content-Length: on an HTTP/1.1 response the chunked coding wins, on whichever
+    // Transfer-Encoding line it stands)
+    let cl = if which % 4 == 1 { "Content-Length: 3\r\n" } else { "" };
+    let head = format!("HTTP/1.1 {} X\r\n{}{}Transfer-Encoding: {}\r\n\r\n", status, extra, cl, te);
     let (n, r) = f.try_response(head.as_bytes()).map_err(|e| format!("{:?}", e))?;
     if n != head.len() || r.is_none() {
         return Err(format!("the head of the chunked response was not accepted (consumed {} of {}, response {})", n, head.len(), r.is_some()));
